@@ -60,6 +60,7 @@ class StructureMetaType(MetaType):
     __anonymous__: bool
     __updating__ = False
     __compiled__ = False
+    __mutable_defaults__ = ()
 
     def __new__(metacls, name: str, bases: tuple[type, ...], classdict: dict[str, Any]) -> Self:  # type: ignore
         if (fields := classdict.pop("fields", None)) is not None:
@@ -81,9 +82,16 @@ class StructureMetaType(MetaType):
             obj = type.__call__(cls)
             object.__setattr__(obj, "_values", {})
             object.__setattr__(obj, "_sizes", {})
-            return obj
+        else:
+            obj = super().__call__(*args, **kwargs)
 
-        return super().__call__(*args, **kwargs)
+        # The default values live in the generated __init__ and are shared by all instances of the class
+        # Arrays and nested structures are mutable, so every instance needs its own
+        for name, shared, type_ in cls.__mutable_defaults__:
+            if obj.__dict__.get(name) is shared:
+                object.__setattr__(obj, name, type_.__default__())
+
+        return obj
 
     def _update_fields(
         cls, fields: list[Field], align: bool = False, classdict: dict[str, Any] | None = None
@@ -114,12 +122,19 @@ class StructureMetaType(MetaType):
         classdict["__fields__"] = fields
         classdict["__bool__"] = _generate__bool__(field_names)
 
+        defaults = [field.type.__default__() for field in raw_lookup.values()]
+        classdict["__mutable_defaults__"] = tuple(
+            (field._name, default, field.type)
+            for field, default in zip(raw_lookup.values(), defaults)
+            if isinstance(default, (list, BaseType)) and not isinstance(default, (int, float, bytes, str))
+        )
+
         if issubclass(cls, UnionMetaType) or isinstance(cls, UnionMetaType):
-            classdict["__init__"] = _generate_union__init__(raw_lookup.values())
+            classdict["__init__"] = _generate_union__init__(raw_lookup.values(), defaults)
             # Not a great way to do this but it works for now
             classdict["__eq__"] = Union.__eq__
         else:
-            classdict["__init__"] = _generate_structure__init__(raw_lookup.values())
+            classdict["__init__"] = _generate_structure__init__(raw_lookup.values(), defaults)
             classdict["__eq__"] = _generate__eq__(field_names)
 
         classdict["__hash__"] = _generate__hash__(field_names)
@@ -773,18 +788,21 @@ def _patch_attributes(func: FunctionType, fields: list[str], start: int = 0) -> 
     )
 
 
-def _generate_structure__init__(fields: list[Field]) -> FunctionType:
+def _generate_structure__init__(fields: list[Field], defaults: list[Any] | None = None) -> FunctionType:
     """Generates an ``__init__`` method for a structure with the specified fields.
 
     Args:
         fields: List of field names.
+        defaults: Optional list of default values, one for each field.
     """
     field_names = [field._name for field in fields]
+    if defaults is None:
+        defaults = [field.type.__default__() for field in fields]
 
     template: FunctionType = _make_structure__init__(len(field_names))
     return type(template)(
         template.__code__.replace(
-            co_consts=(None, *[field.type.__default__() for field in fields]),
+            co_consts=(None, *defaults),
             co_names=(*field_names,),
             co_varnames=("self", *field_names),
         ),
@@ -793,20 +811,23 @@ def _generate_structure__init__(fields: list[Field]) -> FunctionType:
     )
 
 
-def _generate_union__init__(fields: list[Field]) -> FunctionType:
+def _generate_union__init__(fields: list[Field], defaults: list[Any] | None = None) -> FunctionType:
     """Generates an ``__init__`` method for a union with the specified fields.
 
     Args:
         fields: List of field names.
+        defaults: Optional list of default values, one for each field.
     """
     field_names = [field._name for field in fields]
+    if defaults is None:
+        defaults = [field.type.__default__() for field in fields]
 
     template: FunctionType = _make_union__init__(len(field_names))
     return type(template)(
         template.__code__.replace(
             co_consts=(
                 None,
-                *sum([(field._name, field.type.__default__()) for field in fields], ()),
+                *sum([(field._name, default) for field, default in zip(fields, defaults)], ()),
             ),
             co_varnames=("self", *field_names),
         ),
